@@ -225,17 +225,40 @@ func runEvmTx(r *hx.R, n int, w *hx.W, _ []string) error {
 					bal := a.BankKeeper.GetBalance(ctx, drainFrom.NibiruAddr, "unibi").Amount.BigInt()
 					drainVal = new(big.Int).Mul(new(big.Int).Div(new(big.Int).Mul(bal, big.NewInt(r.Range(51, 90))), big.NewInt(100)), e12)
 				}
+				// aimed: two messages of one sender carrying the SAME nonce in one Cosmos tx (the very same signed message twice, or two
+				// different ones): every per-message check that runs before any sequence is bumped sees both as current
+				sameNonce := !drain && r.Chance(1, 10)
+				var sameFrom evmtest.EthPrivKeyAcc
+				if sameNonce {
+					nm = 2 + r.Pick(2)
+					sameFrom = accs[r.Pick(3)]
+				}
 				for j := 0; j < nm; j++ {
 					from := accs[r.Pick(3)]
 					if drain {
 						from = drainFrom
+					}
+					if sameNonce && j < 2 {
+						from = sameFrom
+					}
+					if sameNonce && j == 1 && r.Chance(1, 2) { // the identical signed message again
+						built = append(built, built[0])
+						specs = append(specs, specs[0])
+						continue
 					}
 					key := strings.ToLower(from.EthAddr.Hex())
 					if _, ok := next[key]; !ok {
 						next[key] = a.EvmKeeper.GetAccNonce(ctx, from.EthAddr)
 					}
 					sp := ethMsgSpec{from: from, nonce: next[key], gasLimit: 21000, price: new(big.Int).Set(e12), value: big.NewInt(0), kind: "transfer"}
-					switch r.Pick(10) { // nonce
+					pick := r.Pick(10)
+					if sameNonce && j < 2 {
+						pick = 9
+						if j == 1 {
+							sp.nonce = specs[0].nonce
+						}
+					}
+					switch pick { // nonce
 					case 0:
 						sp.nonce += uint64(r.Range(1, 3)) // gap
 					case 1:
